@@ -229,3 +229,66 @@ func ExecSched2(in []string) []string {
 	}
 	return []string{"ser=" + vh.B(serial), "s=" + s}
 }
+
+// slow <hold_ms> <events>: a listener that stays inside its FIRST invocation for hold_ms (longer than any
+// plausible per-call time limit of a broker: 6 s in the quick tier) while <events>-1 further events are
+// emitted behind it. It must not be entered again before that call has returned, and must then be handed
+// the other events in emit order. Output as for sched2: ser=…, s=<event numbers in invocation order>.
+func GenSlow(g *vh.Gen) {
+	g.Emit("slow", "6000", "3")
+	if g.Tier == "thorough" {
+		g.Emit("slow", "12000", "5")
+	}
+}
+
+// ExecSlow runs the slow-listener case.
+func ExecSlow(in []string) []string {
+	hold := time.Duration(vh.AtoI(in[0])) * time.Millisecond
+	n := vh.AtoI(in[1])
+	h := extension.NewHost()
+	var mu sync.Mutex
+	var seen []int
+	inside := 0
+	serial := true
+	done := make(chan struct{}, n)
+	h.Events.AfterMessageStored.AddListener("verif", func(m event.MessageMetadata) {
+		num := int(m.Size)
+		mu.Lock()
+		inside++
+		if inside > 1 {
+			serial = false
+		}
+		seen = append(seen, num)
+		mu.Unlock()
+		if num == 0 {
+			time.Sleep(hold)
+		}
+		mu.Lock()
+		inside--
+		mu.Unlock()
+		done <- struct{}{}
+	})
+	for i := 0; i < n; i++ {
+		ev := event.MessageMetadata{Mailbox: "m", ID: fmt.Sprint(i), Size: int64(i)}
+		h.Events.AfterMessageStored.Emit(&ev)
+	}
+	deadline := time.After(hold + 5*time.Second)
+	for i := 0; i < n; i++ {
+		select {
+		case <-done:
+		case <-deadline:
+			i = n
+		}
+	}
+	mu.Lock()
+	defer mu.Unlock()
+	p := make([]string, len(seen))
+	for i, x := range seen {
+		p[i] = vh.I(x)
+	}
+	s := strings.Join(p, ",")
+	if s == "" {
+		s = "-"
+	}
+	return []string{"ser=" + vh.B(serial), "s=" + s}
+}
